@@ -123,10 +123,10 @@ checks["C10"] = {"level": "fault_enumeration",
  "bounds_thorough": "history of 2 calls, 2 faults everywhere, atom-64 variant",
  "assumptions": VAM_ASSUME + ["fault kinds: VK_ERROR_OUT_OF_DEVICE_MEMORY for allocate/bind, VK_ERROR_MEMORY_MAP_FAILED for map, VK_ERROR_OUT_OF_HOST_MEMORY for create"], "outside": VAM_OUT + "; faults in GetMemoryRequirements2 / image paths"}
 checks["C11"] = {"level": "model_checking",
- "jobs": [vjob("Verif_C11_Hist", [4, 8, 36], [4, 8, 12, 36, 68]), vjob("Verif_C11_OverBudget", [0], [0, 4])],
- "bounds_quick": VAM_HIST + " on devices with heap size limits {512,1024}, maxMemoryAllocationCount 2, and custom pools (min/max block counts); after every call: device bytes per heap <= limit, live memory objects <= count limit, pool block counts within [min,max], no AllocateMemory driver call during a never-allocate request, a dedicated request owns an object of exactly the requested size",
+ "jobs": [vjob("Verif_C11_Hist", [4, 8, 36], [4, 8, 12, 36, 68]), vjob("Verif_C11_OverBudget", [0], [0, 4]), vjob("Verif_C11_Race", [0], [0])],
+ "bounds_quick": VAM_HIST + " on devices with heap size limits {512,1024}, maxMemoryAllocationCount 2, and custom pools (min/max block counts); after every call: device bytes per heap <= limit, live memory objects <= count limit, pool block counts within [min,max], no AllocateMemory driver call during a never-allocate request, a dedicated request owns an object of exactly the requested size; two goroutines racing for the last bytes of a heap limit (all schedules with at most 2 pre-emptions)",
  "bounds_thorough": "4 calls, multi-allocations",
- "assumptions": VAM_ASSUME, "outside": VAM_OUT + "; the 'concurrent allocations racing for the last bytes' clause (no schedule exploration was built, see C12)"}
+ "assumptions": VAM_ASSUME, "outside": VAM_OUT + "; the race clause is covered only in the reduced form of C12's schedule exploration: two goroutines, two dedicated requests of symbolic size racing for a 512-byte heap limit, at most two pre-emptions"}
 checks["C13"]["jobs"] += [vjob("Verif_C13_Hist", [0, 96], [0, 32, 64, 96])]
 checks["C13"]["bounds_quick"] += " Allocator level: " + VAM_HIST + " with every call inside a panic catcher; refusals compared with a snapshot of device objects, live allocations and counters; CreatePool with every memory type index in [-2,40]."
 checks["C13"]["assumptions"] = checks["C13"]["assumptions"] + VAM_ASSUME
